@@ -1,7 +1,7 @@
 (** C17 -- proofs about the validation layer model: no decoder panics, accepted values satisfy
     their checks, accepted values re-encode to something that decodes to the same value, the
     lifting through an abstract wire codec, and the refutation of the per-rollup proof statement
-    for the full sequencer block. *)
+    for the full sequencer block decoder as it was before the repair of finding F11. *)
 From Astria Require Import Decode.DecodeSpec Merkle.MerkleTotal.
 
 (** * generic facts about [res] *)
@@ -405,8 +405,8 @@ Section Proofs.
     intros Hl. apply G; [constructor|exact Hl].
   Qed.
 
-  Lemma check_rollup_proofs_np rtr m :
-    vals_ok (fun rt => proof_wf (r_proof B rt) = true) m -> check_rollup_proofs rtr m <> RPanic.
+  Lemma check_rollup_proofs_np e rtr m :
+    vals_ok (fun rt => proof_wf (r_proof B rt) = true) m -> check_rollup_proofs e rtr m <> RPanic.
   Proof.
     unfold vals_ok. induction m as [|[k rt] r IH]; cbn [DecodeModel.check_rollup_proofs]; intros H.
     - discriminate.
@@ -414,8 +414,8 @@ Section Proofs.
       apply rbind_np; [apply check_verify_np; exact Hh|intros _ _; apply IH; exact Ht].
   Qed.
 
-  Lemma check_rollup_proofs_ok rtr m u :
-    check_rollup_proofs rtr m = ROk u -> rollup_proofs_verify rtr m = true.
+  Lemma check_rollup_proofs_ok e rtr m u :
+    check_rollup_proofs e rtr m = ROk u -> rollup_proofs_verify rtr m = true.
   Proof.
     unfold DecodeModel.rollup_proofs_verify.
     induction m as [|[k rt] r IH]; cbn [DecodeModel.check_rollup_proofs forallb]; intros H.
@@ -424,8 +424,8 @@ Section Proofs.
       cbn [snd]. rewrite Hv, (IH H). reflexivity.
   Qed.
 
-  Lemma rollup_proofs_verify_check rtr m :
-    rollup_proofs_verify rtr m = true -> check_rollup_proofs rtr m = ROk tt.
+  Lemma rollup_proofs_verify_check e rtr m :
+    rollup_proofs_verify rtr m = true -> check_rollup_proofs e rtr m = ROk tt.
   Proof.
     unfold DecodeModel.rollup_proofs_verify.
     induction m as [|[k rt] r IH]; cbn [DecodeModel.check_rollup_proofs forallb]; intros H.
@@ -565,11 +565,13 @@ Section Proofs.
     apply rbind_np; [apply field_proof_np|intros rip Hrip]. apply field_proof_wf in Hrip.
     destruct (rs_hdr B r) as [rh|]; [|discriminate].
     apply rbind_np; [apply wrap_np, header_np|intros h _].
-    apply rbind_np; [apply wrap_np, rmap_np, rollup_txs_np|intros rts _].
+    apply rbind_np; [apply wrap_np, rmap_np, rollup_txs_np|intros rts Hrts].
+    apply wrap_ok in Hrts. apply rmap_rollup_txs_wf in Hrts.
     cbv zeta.
     apply rbind_np; [apply check_verify_np; exact Hrtp|intros _ _].
     apply rbind_np; [apply check_verify_np; exact Hrtp|intros _ _].
     apply rbind_np; [apply check_verify_np; exact Hrip|intros _ _].
+    apply rbind_np; [apply check_rollup_proofs_np, rt_wf_proof_wf, collect_vals; exact Hrts|intros _ _].
     apply rbind_np; [apply uch_np|intros ? _].
     apply rbind_np; [apply opt_eci_np|intros; discriminate].
   Qed.
@@ -600,13 +602,14 @@ Section Proofs.
     apply rbind_ok in H. destruct H as [u1 [Hv1 H]]. apply check_verify_ok in Hv1.
     apply rbind_ok in H. destruct H as [u2 [Hv2 H]]. apply check_verify_ok in Hv2.
     apply rbind_ok in H. destruct H as [u3 [Hv3 H]]. apply check_verify_ok in Hv3.
+    apply rbind_ok in H. destruct H as [u4 [Hv4 H]]. apply check_rollup_proofs_ok in Hv4.
     apply rbind_ok in H. destruct H as [uch [Huch H]]. apply uch_ok in Huch.
     destruct Huch as [-> Huch].
     apply rbind_ok in H. destruct H as [eci [Heci H]]. apply opt_eci_ok in Heci.
     destruct Heci as [Hec Hewf].
     injection H as <-. constructor; cbn [s_bh s_hdr s_rts s_rtp s_rip s_uch s_eci].
     - unfold DecodeModel.seq_block_checks. cbn [s_bh s_hdr s_rts s_rtp s_rip s_uch s_eci].
-      rewrite Hbh, Hhc, Hv1, Hv2, Hv3, Hec. reflexivity.
+      rewrite Hbh, Hhc, Hv1, Hv2, Hv3, Hv4, Hec. reflexivity.
     - exact Hrtp.
     - exact Hrip.
     - apply collect_vals. exact Hrts.
@@ -626,14 +629,15 @@ Section Proofs.
     rewrite Hc. cbn [require rbind].
     rewrite (field_proof_roundtrip _ _ _ Hrtp). cbn [rbind].
     rewrite (field_proof_roundtrip _ _ _ Hrip). cbn [rbind].
-    rewrite (header_roundtrip _ C3). cbn [wrap rbind].
+    rewrite (header_roundtrip _ C4). cbn [wrap rbind].
     rewrite (rollup_txs_list_roundtrip _ Hvals). cbn [wrap rbind]. cbv zeta.
     assert (Hm : rollup_txs_collect (map snd (s_rts B v)) = s_rts B v).
     { apply (collect_idem Hbeq). rewrite Hcol. apply (collect_inv Hbeq). }
     rewrite Hm.
+    rewrite (verifies_check _ _ _ _ C3). cbn [rbind].
     rewrite (verifies_check _ _ _ _ C2). cbn [rbind].
     rewrite (verifies_check _ _ _ _ C1). cbn [rbind].
-    rewrite (verifies_check _ _ _ _ C0). cbn [rbind].
+    rewrite (rollup_proofs_verify_check _ _ _ C0). cbn [rbind].
     rewrite Huch. cbn [rbind].
     rewrite (opt_eci_roundtrip _ _ C Heci). cbn [rbind].
     destruct v. reflexivity.
@@ -721,7 +725,7 @@ Section Proofs.
     { apply (collect_idem Hbeq). rewrite Hcol. apply (collect_inv Hbeq). }
     rewrite Hm. rewrite Hall. cbn [rbind].
     rewrite (verifies_check _ _ _ _ C2). cbn [rbind].
-    rewrite (rollup_proofs_verify_check _ _ C1). cbn [rbind].
+    rewrite (rollup_proofs_verify_check _ _ _ C1). cbn [rbind].
     rewrite (verifies_check _ _ _ _ C0). cbn [rbind].
     rewrite Huch. cbn [rbind].
     rewrite (opt_eci_roundtrip _ _ C Heci). cbn [rbind].
@@ -940,6 +944,20 @@ Section Proofs.
       apply Forall2_rmap_idx. eapply Forall2_roundtrip; [|exact H].
       intros r v Hv. apply rollup_data_roundtrip, (rollup_data_ok _ _ Hv).
   Qed.
+  Theorem rollup_proofs_verify_accepted_sec :
+    (forall r v, seq_block_from_raw r = ROk v ->
+                 rollup_proofs_verify (h_rtr B (s_hdr B v)) (s_rts B v) = true) /\
+    (forall r v, filtered_from_raw r = ROk v ->
+                 rollup_proofs_verify (h_rtr B (f_hdr B v)) (f_rts B v) = true).
+  Proof.
+    split; intros r v H.
+    - apply seq_block_ok in H. destruct H as [Hc _ _ _ _ _ _].
+      unfold DecodeModel.seq_block_checks in Hc. cbv zeta in Hc.
+      repeat (apply andb_prop in Hc; let C := fresh "C" in destruct Hc as [Hc C]). exact C0.
+    - apply filtered_ok in H. destruct H as [Hc _ _ _ _ _ _ _].
+      unfold DecodeModel.filtered_checks in Hc. cbv zeta in Hc.
+      repeat (apply andb_prop in Hc; let C := fresh "C" in destruct Hc as [Hc C]). exact C1.
+  Qed.
 End Proofs.
 
 Theorem decode_total : forall B blen beq cat sha leafH nodeH emptyH cid_ok eci_parse vk_ok sig_ok
@@ -959,6 +977,19 @@ Theorem reencode : forall B blen beq cat sha leafH nodeH emptyH cid_ok eci_parse
   stmt_reencode B blen beq cat sha leafH nodeH emptyH cid_ok eci_parse vk_ok sig_ok
                 body_url body_parse.
 Proof. exact reencode_sec. Qed.
+
+Theorem rollup_proofs_verify_accepted :
+  forall B blen beq cat sha leafH nodeH emptyH cid_ok eci_parse,
+    (forall r v,
+       seq_block_from_raw B blen beq cat sha leafH nodeH emptyH cid_ok eci_parse r = ROk v ->
+       rollup_proofs_verify B beq cat leafH nodeH emptyH (h_rtr B (s_hdr B v)) (s_rts B v) = true) /\
+    (forall r v,
+       filtered_from_raw B blen beq cat sha leafH nodeH emptyH cid_ok eci_parse r = ROk v ->
+       rollup_proofs_verify B beq cat leafH nodeH emptyH (h_rtr B (f_hdr B v)) (f_rts B v) = true).
+Proof.
+  intros. apply (rollup_proofs_verify_accepted_sec B blen beq cat sha leafH nodeH emptyH cid_ok eci_parse
+                   (fun _ => true) (fun _ _ _ => true) (fun _ => BodyOk)).
+Qed.
 
 (** * lifting through the abstract wire codec *)
 
@@ -1071,10 +1102,23 @@ Module Toy.
     RErr [TParseRollupTransactions; TProofInvalid; TInvalidProof; TLeafIndexOutsideTree].
   Proof. vm_compute. reflexivity. Qed.
 
-  (** the full sequencer block is accepted although the inclusion proof of its only rollup does
-      not verify against the header's rollup transactions root *)
+  (** BEFORE the F11 fix the full sequencer block was accepted although the inclusion proof of its
+      only rollup does not verify against the header's rollup transactions root *)
+  Definition seq_block_from_raw_before_F11_fix :=
+    seq_block_from_raw_before_F11_fix B blen beq cat sha leafH nodeH emptyH cid_ok eci_parse.
+
+  (** the repaired decoder rejects the witness, with the error the fix returns *)
+  Example block_rejects_bad_rollup_proof :
+    seq_block_from_raw (block bad_rollup_proof) = RErr [TRollupTransactionsNotInSequencerBlock].
+  Proof. vm_compute. reflexivity. Qed.
+  (** both decoders agree on the honest block *)
+  Example before_fix_accepts_good_block :
+    seq_block_from_raw_before_F11_fix (block good_rollup_proof) =
+    seq_block_from_raw (block good_rollup_proof).
+  Proof. vm_compute. reflexivity. Qed.
+
   Definition accepted_with_bad_proof : bool :=
-    match seq_block_from_raw (block bad_rollup_proof) with
+    match seq_block_from_raw_before_F11_fix (block bad_rollup_proof) with
     | ROk v => negb (rollup_proofs_verify B beq cat leafH nodeH emptyH (h_rtr B (s_hdr B v)) (s_rts B v))
     | _ => false
     end.
@@ -1083,20 +1127,21 @@ Module Toy.
   Proof. vm_compute. reflexivity. Qed.
 
   Lemma block_with_bad_rollup_proof_accepted :
-    exists v, seq_block_from_raw (block bad_rollup_proof) = ROk v /\
+    exists v, seq_block_from_raw_before_F11_fix (block bad_rollup_proof) = ROk v /\
               rollup_proofs_verify B beq cat leafH nodeH emptyH (h_rtr B (s_hdr B v)) (s_rts B v)
               = false.
   Proof.
     pose proof accepted_with_bad_proof_true as H. unfold accepted_with_bad_proof in H.
-    destruct (seq_block_from_raw (block bad_rollup_proof)) as [v|e|]; try discriminate H.
+    destruct (seq_block_from_raw_before_F11_fix (block bad_rollup_proof)) as [v|e|]; try discriminate H.
     exists v. split; [reflexivity|]. apply negb_true_iff. exact H.
   Qed.
 End Toy.
 
-Theorem seq_block_rollup_proofs_refuted :
+Theorem seq_block_before_F11_fix_refuted :
   exists B blen beq cat sha leafH nodeH emptyH cid_ok eci_parse,
     BeqSpec B beq /\
-    ~ stmt_seq_block_rollup_proofs B blen beq cat sha leafH nodeH emptyH cid_ok eci_parse.
+    ~ stmt_seq_block_rollup_proofs_before_F11_fix B blen beq cat sha leafH nodeH emptyH cid_ok
+        eci_parse.
 Proof.
   exists Toy.B, Toy.blen, Toy.beq, Toy.cat, Toy.sha, Toy.leafH, Toy.nodeH, Toy.emptyH,
          Toy.cid_ok, Toy.eci_parse.
